@@ -327,7 +327,7 @@ func c08Burst(modes []c04Mode, maxN int) func(x *X) {
 func c08Unusual(modes []c04Mode) func(x *X) {
 	return func(x *X) {
 		mode := modes[x.Choose(len(modes))]
-		script := x.Choose(3)
+		script := x.Choose(6)
 		shared := x.Choose(2) == 1
 		so := mode.so
 		so.shared = shared
@@ -347,6 +347,17 @@ func c08Unusual(modes []c04Mode) func(x *X) {
 			for i, n := range []int{63, 64, 65, 200, 5000} {
 				cl.WriteMessage(mkReq(enc, uint64(20+i), nil, "Svc.EchoCtx", mkPayload(byte(0x40+i), 0, n)))
 			}
+		case 3, 4, 5:
+			// a stream open the server refuses (unknown method / a method that is not a stream
+			// handler), then what the library's own client sends next: data, the close frame
+			method := []string{"Nope.Nope", "Svc.Echo", "Nope.Nope"}[script-3]
+			cl.WriteMessage(mkReq(enc, 7, upOpen, method, nil))
+			vs.Quiesce()
+			if script != 5 {
+				cl.WriteMessage(mkReq(enc, 7, upData, "", streamMsg(0x31, 0)))
+				cl.WriteMessage(mkReq(enc, 7, upClose, "", nil))
+			}
+			// (script 5: nothing more — the connection is dropped with the refused stream still registered)
 		}
 		vs.Quiesce()
 		if !c08Probe(x, cl, enc, 999, 0x61) && !cl.p.closed[1] && !cl.p.dead {
